@@ -583,6 +583,11 @@ class MessageManager(ClientLike):
 
         for n in range(len(subscribers)):
             module = subscribers[n]
+            # a subscriber may have been removed while this message was being delivered
+            # (a failed send to another module publishes CLIENT_CLOSED / FAILED_MESSAGE)
+            if module.conn not in self.modules:
+                continue
+
             if module.conn in self.wlist:
                 try:
                     if (
@@ -633,7 +638,11 @@ class MessageManager(ClientLike):
             header (MessageHeader): Message header to send
             payload (Union[bytes, MessageData]): Message data to send
         """
-        for module in self.logger_modules:
+        # iterate over a snapshot: a failed send removes the module from the set
+        for module in list(self.logger_modules):
+            if module not in self.logger_modules:
+                continue
+
             if module.conn not in self.wlist:
                 # Block until logger is ready
                 select.select([], [module.conn], [], None)
@@ -834,11 +843,16 @@ class MessageManager(ClientLike):
         msg = cd.MDF_ACTIVE_CLIENTS()
         msg.timestamp = time.perf_counter()
 
-        for i, (sock, module) in enumerate(self.modules.items()):
+        # iterate over a snapshot: a failed send removes entries from the table
+        for i, (sock, module) in enumerate(list(self.modules.items())):
             # if sock == self.listen_socket:
             #     continue
-            msg.client_mod_id[i] = module.mod_id
-            msg.client_pid[i] = module.pid
+            if sock not in self.modules:
+                continue
+
+            if i < cd.MAX_ACTIVE_CLIENTS:
+                msg.client_mod_id[i] = module.mod_id
+                msg.client_pid[i] = module.pid
             self.send_client_info(module)
 
         msg.num_clients = len(self.modules) - 1
